@@ -1,6 +1,8 @@
 package keeper
 
 import (
+	"sort"
+
 	sdk "github.com/cosmos/cosmos-sdk/types"
 	banktypes "github.com/cosmos/cosmos-sdk/x/bank/types"
 	"github.com/elys-network/elys/x/burner/types"
@@ -15,9 +17,19 @@ func (k Keeper) ShouldBurnTokens(ctx sdk.Context, epochIdentifier string) bool {
 // BurnTokensForAllDenoms burns tokens for all denominations
 func (k Keeper) BurnTokensForAllDenoms(ctx sdk.Context) error {
 	balances := k.getPositiveBalances(ctx)
-	for denom, balance := range balances {
-		if err := k.burnTokensForDenom(ctx, balance, denom); err != nil {
-			return err
+	// deterministic order: a map range would visit the denoms in a different order on every node
+	denoms := make([]string, 0, len(balances))
+	for denom := range balances {
+		denoms = append(denoms, denom)
+	}
+	sort.Strings(denoms)
+	for _, denom := range denoms {
+		// Coins the zero address cannot spend (e.g. a vesting account that somebody created there)
+		// make the transfer fail before anything is moved: that denom is skipped instead of failing
+		// the epoch hook - the caller runs in BeginBlock, where an error or panic halts the chain
+		// for good. burnTokensForDenom has already logged the reason.
+		if err := k.burnTokensForDenom(ctx, balances[denom], denom); err != nil {
+			continue
 		}
 	}
 	return nil
